@@ -15,18 +15,6 @@ def Item.depth : Item → Nat
 
 def File.depth (f : File) : Nat := (f.items.map Item.depth).foldl max 0
 
-theorem foldl_max_le (xs : List Nat) (a : Nat) : a ≤ xs.foldl max a ∧ ∀ x ∈ xs, x ≤ xs.foldl max a := by
-  induction xs generalizing a with
-  | nil => simp
-  | cons y ys ih =>
-    simp only [List.foldl_cons, List.mem_cons]
-    have := ih (max a y)
-    refine ⟨Nat.le_trans (Nat.le_max_left a y) this.1, ?_⟩
-    intro x hx
-    rcases hx with rfl | hx
-    · exact Nat.le_trans (Nat.le_max_right a x) this.1
-    · exact this.2 x hx
-
 theorem item_depth_le {f : File} {it : Item} (h : it ∈ f.items) : it.depth ≤ f.depth :=
   (foldl_max_le _ 0).2 _ (List.mem_map_of_mem h)
 
